@@ -587,6 +587,8 @@ InspectCase(c) ==
                          /\ SeqSum([i \in DOMAIN o.children |-> NumLeaves(o.children[i])]) = o.num_leaves
                          /\ SeqSum([i \in DOMAIN o.children |-> NumNodes(o.children[i])]) = o.num_nodes - 1)
 
+\* the lazy iterator over a mutable heap: a recorded program is accepted iff every call returned what IterSem!Step predicts
+IS == INSTANCE IterSem
 Verdict(c) ==
   CASE c.op = "flatten" -> FlattenFamily(c)
     [] c.op = "unflatten" -> UnflattenCase(c)
@@ -620,6 +622,7 @@ Verdict(c) ==
     [] c.op = "onelevel" -> OneLevelCase(c)
     [] c.op = "inspect" -> InspectCase(c)
     [] c.op = "fromcoll" -> FromCollCase(c)
+    [] c.op = "itertrace" -> IS!Replay(IS!S0(c.shape), c.calls, 1, <<>>)
     [] OTHER -> <<"unknown-op">>
 
 \* what the specification expects for a case (used by tools/explain.py to annotate replay files)
